@@ -3,6 +3,7 @@ import MoneroModel.Proofs.ScanMore
 import MoneroModel.Props.C07
 import MoneroModel.Proofs.GroupInstance
 import MoneroModel.Proofs.EdwardsLawful
+import MoneroModel.Proofs.EdwardsPermissive
 open Monero Monero.Scan
 /-! # C08 — recovered amounts are the sender's, and always open the on-chain commitment
 
@@ -354,5 +355,50 @@ theorem C08_opening_sound_with_ed25519 : type_of% (@C08_opening_sound_with EdPoi
 theorem C08_open_commitment_sound_ed25519 : type_of% (@C08_open_commitment_sound EdPoint _ edOps edOps_lawful) := C08_open_commitment_sound edOps_lawful
 theorem C08_scan_reports_sender_amount_ed25519 : type_of% (@C08_scan_reports_sender_amount EdPoint _ edOps edOps_lawful) := C08_scan_reports_sender_amount edOps_lawful
 theorem C08_honest_scan_ok_ed25519 : type_of% (@C08_honest_scan_ok EdPoint _ edOps edOps_lawful) := C08_honest_scan_ok edOps_lawful
+/-! ### Ed25519 with dalek's permissive decompression: no hypothesis about `decP` or `H` left
+
+`decPermissive` (Proofs/EdwardsPermissive.lean) is `CompressedEdwardsY::decompress` — the model `Keys.decompressDalek` of C13 —
+as a decoder into the group. It extends the strict decoder, inverts the encoding, decodes the regenerated constant `H`, and
+the decoder that the compiled driver runs (`Drv.C07.decP`) refines it. -/
+
+/-- the permissive decoder: inverts `enc`, extends `PublicKey::from_slice`'s decoder, is refined by the driver's decoder -/
+theorem C08_permissive_decoder :
+    (∀ X : EdPoint, decPermissive (edOps.enc X) = some X) ∧
+    (∀ b X, edOps.dec b = some X → decPermissive b = some X) ∧
+    (∀ b Q, Drv.C07.decP b = some Q → ∃ h : Valid Q, decPermissive b = some (toPoint Q h)) ∧
+    (∀ b, Drv.C07.decP b = none → decPermissive b = none) :=
+  ⟨decPermissive_enc, fun b X h => decPermissive_of_strict b X h, fun b => (decP_refines b).1, fun b => (decP_refines b).2⟩
+
+/-- the constant `H` of the current source decompresses under the permissive decoder too (to the same point): the `unwrap` in
+`open_commitment` does not panic -/
+theorem C08_H_decodes_permissive : ∃ H : EdPoint, decPermissive Gen.pointH = some H ∧ edOps.dec Gen.pointH = some H := by
+  obtain ⟨H, hH, _⟩ := C08_H_decodes
+  exact ⟨H, decPermissive_of_strict _ H hH, by rw [edOps_dec]; exact hH⟩
+
+private theorem l64 : 2 ^ 64 ≤ edOps.l := by rw [edOps_l]; unfold Ed.l; omega
+private theorem l256 : edOps.l ≤ 2 ^ 256 := by rw [edOps_l]; unfold Ed.l; omega
+private theorem k8 : ∀ m, 8 ≤ (edOps.keccak m).length := by
+  intro m; rw [edOps_keccak, keccak256_length]; omega
+
+/-- `C08_sender_roundtrip` for Ed25519, dalek's decompression and the point `H` that `Gen.pointH` denotes
+(`C08_H_decodes_permissive`); the commitment hypothesis `hC` is discharged for `cb = enc C` by `C08_permissive_decoder` -/
+theorem C08_sender_roundtrip_ed25519_permissive (H : EdPoint) (hH : decPermissive Gen.pointH = some H) :
+    type_of% (C08_sender_roundtrip edOps_lawful decPermissive H hH l64 l256 k8) :=
+  C08_sender_roundtrip edOps_lawful decPermissive H hH l64 l256 k8
+
+/-- `C08_scan_reports_sender_amount` for Ed25519 and dalek's decompression: the only hypotheses left are about the transaction -/
+theorem C08_scan_reports_sender_amount_ed25519_permissive (H : EdPoint) (hH : decPermissive Gen.pointH = some H) :
+    type_of% (C08_scan_reports_sender_amount edOps_lawful decPermissive H hH decPermissive_enc l64 l256 k8) :=
+  C08_scan_reports_sender_amount edOps_lawful decPermissive H hH decPermissive_enc l64 l256 k8
+
+/-- `C08_honest_scan_ok` for Ed25519 and dalek's decompression -/
+theorem C08_honest_scan_ok_ed25519_permissive (H : EdPoint) (hH : decPermissive Gen.pointH = some H) :
+    type_of% (C08_honest_scan_ok edOps_lawful decPermissive H hH decPermissive_enc l64 l256 k8) :=
+  C08_honest_scan_ok edOps_lawful decPermissive H hH decPermissive_enc l64 l256 k8
+
+/-- `C08_opening_sound_with` for Ed25519 and dalek's decompression -/
+theorem C08_opening_sound_with_ed25519_permissive :
+    type_of% (C08_opening_sound_with edOps_lawful decPermissive) :=
+  C08_opening_sound_with edOps_lawful decPermissive
 end Ed25519
 end C08
